@@ -163,8 +163,8 @@ func (p *Prog) pmFor(n ast.Node) map[ast.Node]ast.Node {
 // given atoms (whitespace-free source text; a leading '!' for a negated
 // atom), in any order and with any parenthesisation or De Morgan form.
 func (p *Prog) isConjunctionOf(cond ast.Expr, atoms ...string) bool {
-	got := conjuncts(cond, true)
-	if len(got) != len(atoms) {
+	got, pure := pureJunction(cond, true)
+	if !pure || len(got) != len(atoms) {
 		return false
 	}
 	want := map[string]bool{}
@@ -182,4 +182,30 @@ func (p *Prog) isConjunctionOf(cond ast.Expr, atoms ...string) bool {
 		delete(want, t)
 	}
 	return len(want) == 0
+}
+
+// boolLeaves counts the atoms of a boolean expression (everything that is not
+// &&, ||, ! or a parenthesis). conjuncts drops sub-terms it cannot flatten, so
+// a pure conjunction (or, with val=false, a pure disjunction) is one where the
+// flattened list has as many entries as the expression has atoms.
+func boolLeaves(e ast.Expr) int {
+	e = ast.Unparen(e)
+	switch x := e.(type) {
+	case *ast.UnaryExpr:
+		if x.Op == token.NOT {
+			return boolLeaves(x.X)
+		}
+	case *ast.BinaryExpr:
+		if x.Op == token.LAND || x.Op == token.LOR {
+			return boolLeaves(x.X) + boolLeaves(x.Y)
+		}
+	}
+	return 1
+}
+
+// pureJunction flattens e as a conjunction (val=true) or disjunction
+// (val=false); ok=false when e mixes connectives.
+func pureJunction(e ast.Expr, val bool) ([]guardCond, bool) {
+	atoms := conjuncts(e, val)
+	return atoms, len(atoms) > 0 && len(atoms) == boolLeaves(e)
 }
